@@ -69,26 +69,31 @@ def shimAppend (P : ProtoParams) (s : IoOut) (d : Bytes) : IoOut × List OObs :=
     else ({ s with shim := s.shim ++ d }, [])
   else (s, [])
 
-/-- supla_esp_data_write -/
-def dataWrite (P : ProtoParams) (s : IoOut) (d : Bytes) : IoOut × List OObs :=
-  let r1 : IoOut × List OObs :=
-    if s.shim.length > 0 then
-      match s.espSent s.shim with
-      | (r, s', o) => (if r = 0 then { s' with shim := [] } else s', o)
-    else (s, [])
-  let s := r1.1
-  let o1 := r1.2
+/-- first block of supla_esp_data_write: retry what is buffered -/
+def retry (s : IoOut) : IoOut × List OObs :=
   if s.shim.length > 0 then
-    match shimAppend P s d with
-    | (s, o2) => (s, o1 ++ o2)
+    match s.espSent s.shim with
+    | (r, s', o) => (if r = 0 then { s' with shim := [] } else s', o)
+  else (s, [])
+
+/-- rest of supla_esp_data_write: append if still pending, else send directly -/
+def sendOrBuffer (P : ProtoParams) (s : IoOut) (d : Bytes) : IoOut × List OObs :=
+  if s.shim.length > 0 then shimAppend P s d
   else if d.length > 0 then
     match s.espSent d with
     | (r, s, o2) =>
       if r = Io_INPROGRESS ∨ r = Io_MAXNUM then
         match shimAppend P s d with
-        | (s, o3) => (s, o1 ++ o2 ++ o3)
-      else (s, o1 ++ o2)
-  else (s, o1)
+        | (s, o3) => (s, o2 ++ o3)
+      else (s, o2)
+  else (s, [])
+
+/-- supla_esp_data_write -/
+def dataWrite (P : ProtoParams) (s : IoOut) (d : Bytes) : IoOut × List OObs :=
+  match retry s with
+  | (s1, o1) =>
+    match sendOrBuffer P s1 d with
+    | (s2, o2) => (s2, o1 ++ o2)
 
 /-- sproto_out_buffer_append on the out buffer -/
 def outAppend (P : ProtoParams) (b : AccBuf) (f : Frame) : PRes × AccBuf :=
@@ -96,7 +101,7 @@ def outAppend (P : ProtoParams) (b : AccBuf) (f : Frame) : PRes × AccBuf :=
   else
     match b.append P (f.header ++ f.payload) with
     | (.ok, b1) => b1.append P TAG
-    | (_, b1) => (.false_, b1)
+    | (r, b1) => (r, b1)
 
 /-- sproto_pop_out_data -/
 def popOut (P : ProtoParams) (b : AccBuf) (n : Nat) : Bytes × AccBuf :=
@@ -108,40 +113,50 @@ def popOut (P : ProtoParams) (b : AccBuf) (n : Nat) : Bytes × AccBuf :=
                  then (if rest.length < P.bufMin then P.bufMin else rest.length) else b.size
     (b.data.take n', { b with data := rest, size := size' })
 
-/-- OUT half of srpc_iterate: one queued packet to the out buffer, one chunk to data_write.
-    `false` = srpc_iterate returns FALSE. -/
+/-- first part of the OUT half: one queued packet goes to the out buffer -/
+def queueToBuf (P : ProtoParams) (s : IoOut) : Bool × IoOut × List OObs :=
+  match s.outQ with
+  | [] => (true, s, [])
+  | f :: q =>
+    match outAppend P s.outb f with
+    | (ar, ob) =>
+      if ar ≠ .ok ∧ ar ≠ .false_ then (false, { s with outQ := q, outb := ob }, [OObs.log "OUTAPPERR"])
+      else (true, { s with outQ := q, outb := ob }, [])
+
+/-- second part: one chunk of the out buffer goes to data_write -/
+def bufToWire (P : ProtoParams) (s : IoOut) : IoOut × List OObs :=
+  match popOut P s.outb P.chunk with
+  | (d, ob) =>
+    if d.length ≠ 0 then dataWrite P { s with outb := ob } d
+    else ({ s with outb := ob }, [])
+
+/-- OUT half of srpc_iterate.  `false` = srpc_iterate returns FALSE. -/
 def outHalf (P : ProtoParams) (s : IoOut) : Bool × IoOut × List OObs :=
-  let r : Bool × IoOut × List OObs :=
-    match s.outQ with
-    | [] => (true, s, [])
-    | f :: q =>
-      match outAppend P s.outb f with
-      | (ar, ob) =>
-        let s := { s with outQ := q, outb := ob }
-        if ar ≠ .ok ∧ ar ≠ .false_ then (false, s, [OObs.log "OUTAPPERR"]) else (true, s, [])
-  if !r.1 then r
-  else
-    let s := r.2.1
-    match popOut P s.outb P.chunk with
-    | (d, ob) =>
-      let s := { s with outb := ob }
-      if d.length ≠ 0 then
-        match dataWrite P s d with
-        | (s, o3) => (true, s, r.2.2 ++ o3)
-      else (true, s, r.2.2)
+  match queueToBuf P s with
+  | (false, s1, o1) => (false, s1, o1)
+  | (true, s1, o1) =>
+    match bufToWire P s1 with
+    | (s2, o2) => (true, s2, o1 ++ o2)
+
+/-- request id assigned by sproto_sdp_init -/
+def nextId (n : Nat) : Nat := if (n + 1) % U32 = 0 then 1 else (n + 1) % U32
+
+/-- the frame queued by an accepted call -/
+def accepted (P : ProtoParams) (allowed : Nat → Bool) (s : IoOut) (callId : Nat) (payload : Bytes) :
+    Option Frame :=
+  if !allowed callId then none
+  else if payload.length > P.maxData then none
+  else if s.outQ.length ≥ P.queue then none
+  else some { ver := s.ver, rrId := nextId s.nextRr, callId := callId, payload := payload }
 
 /-- sproto_sdp_init + sproto_set_data + srpc_out_queue_push -/
 def asyncCall (P : ProtoParams) (allowed : Nat → Bool) (s : IoOut) (callId : Nat) (payload : Bytes) :
     IoOut × List OObs :=
-  if !allowed callId then (s, [.callret 0]) else
-  let rr0 := (s.nextRr + 1) % U32
-  let rr := if rr0 = 0 then 1 else rr0
-  let s := { s with nextRr := rr }
-  if payload.length > P.maxData then (s, [.callret 0])
-  else if s.outQ.length ≥ P.queue then (s, [.callret 0])
+  if !allowed callId then (s, [.callret 0])
   else
-    ({ s with outQ := s.outQ ++ [{ ver := s.ver, rrId := rr, callId := callId, payload := payload }] },
-     [.callret rr])
+    match accepted P allowed s callId payload with
+    | none => ({ s with nextRr := nextId s.nextRr }, [.callret 0])
+    | some f => ({ s with nextRr := nextId s.nextRr, outQ := s.outQ ++ [f] }, [.callret f.rrId])
 
 end IoOut
 
